@@ -107,6 +107,71 @@ def acceptor(chk, prog, cfg):
     def falsy(r):
         return r is False or r == 0
 
+    # ---- fallback for index-/counter-driven loop forms: the whole function interpreted on every string of a bounded family
+    def bounded_language_check():
+        import re as _re
+        rx = _re.compile(rb"(r#)?[A-Za-z_][A-Za-z0-9_]*\Z")
+
+        def run_on(bs):
+            def h(name, args, t):
+                sp = mir.strip_generics(name)
+                last = sp.split("::")[-1]
+                if sp == "core::str::<impl str>::is_ascii" and len(args) == 1:
+                    return all(x < 128 for x in bs)
+                if sp == "core::str::<impl str>::as_bytes" and len(args) == 1 and args[0] == S("s"):
+                    return ("slice", list(bs), None)
+                if sp == "core::str::<impl str>::len" and args == [S("s")]:
+                    return len(bs)
+                if last == "len" and len(args) == 1 and isinstance(args[0], tuple) and args[0][:1] == ("slice",) and args[0][2] is None:
+                    return len(args[0][1])
+                if last == "is_empty" and len(args) == 1 and isinstance(args[0], tuple) and args[0][:1] == ("slice",) and args[0][2] is None:
+                    return len(args[0][1]) == 0
+                if last == "starts_with" and len(args) == 2 and isinstance(args[0], tuple) and args[0][:1] == ("slice",):
+                    nd = args[1]
+                    pat = None
+                    if isinstance(nd, S) and nd.name.startswith("str:"):
+                        pat = nd.name[4:].encode()
+                    elif isinstance(nd, tuple) and nd[:1] in (("array",), ("slice",), ("vec",)) and all(isinstance(x, int) for x in nd[1]):
+                        pat = bytes(nd[1])
+                    elif isinstance(nd, S) and nd.name == "const":
+                        pat = b"r#"      # the only byte-string constant of this function
+                    if pat is not None:
+                        return bytes(args[0][1][:len(pat)]) == pat
+                if last == "get" and len(args) == 2 and isinstance(args[0], tuple) and args[0][:1] == ("slice",) and isinstance(args[1], int):
+                    return absint.some(args[0][1][args[1]]) if 0 <= args[1] < len(args[0][1]) else absint.NONE
+                if last in ("first",) and len(args) == 1 and isinstance(args[0], tuple) and args[0][:1] == ("slice",):
+                    return absint.some(args[0][1][0]) if args[0][1] else absint.NONE
+                return None
+            return absint.run(b, 0, {1: S("s")}, call=h, prog=prog, inline=True, max_steps=4000)
+        family = [b"", b"r#", b"r#r#a", b"r#_", b"r#9", b"_", b"a1_Z", b"r#a1", b"a-b", b"ab\xc3\xa9"]
+        family += [bytes([v]) for v in range(256)] + [b"a" + bytes([v]) for v in range(256)] + [b"r#" + bytes([v]) for v in range(256)] + [b"_9" + bytes([v]) for v in range(0, 256, 3)]
+        bad = []
+        for bs in family:
+            r = run_on(bs)
+            want = bool(rx.match(bs)) and all(x < 128 for x in bs)
+            if bool(r) != want or not isinstance(r, (bool, int)):
+                bad.append((bs, r))
+        return bad, len(family)
+
+    # can the opaque-tail scenarios interpret this spelling of the function at all?  (an index-driven `while` loop over the bytes cannot be
+    # interpreted with an opaque tail; such forms are decided on a bounded family of concrete strings instead)
+    try:
+        Scen(bytes_=("slice", [0x61], S("tail"))).run()
+        Scen(bytes_=("slice", [], None)).run()
+        symbolic_ok = True
+    except absint.Unrecognised:
+        symbolic_ok = False
+    if not symbolic_ok:
+        try:
+            bad, n_ = bounded_language_check()
+            chk.expect(not bad, "R18.1", "is_rust_identifier:bounded-language", W(),
+                       ("the function agrees with (r#)?[A-Za-z_][A-Za-z0-9_]* on all %d strings of the bounded family (every 1-byte string, every a?/r#?/_9? string, "
+                        "the prefix corner cases)" % n_) if not bad else "disagrees with the identifier grammar on %s" % [(x[0], x[1]) for x in bad[:6]], cfg)
+            chk.notes.append("C18 R18.1: this spelling of is_rust_identifier is loop-driven; decided on a bounded family of strings, not for all tails")
+            return
+        except absint.Unrecognised as e:
+            chk.unrecognised("R18.1", "is_rust_identifier:shape", W(), "neither the opaque-tail scenarios nor the bounded family can interpret the function: %s" % e, cfg)
+            return
     # (a) non-ASCII input is rejected, and that test comes first
     try:
         sc = Scen(ascii_=False)
